@@ -6,6 +6,7 @@ import (
 	"os"
 
 	"verifharness/c05"
+	"verifharness/c06"
 	"verifharness/c09"
 	"verifharness/c18"
 	"verifharness/wk"
@@ -13,6 +14,7 @@ import (
 
 var runners = map[string]func(*wk.Job, *wk.Worker) error{
 	"c05": c05.Run,
+	"c06": c06.Run,
 	"c09": c09.Run,
 	"c18": c18.Run,
 }
